@@ -60,13 +60,13 @@ func (t *Trial) Finals(f *Final) map[int]linOut {
 // ---- C06: exactly once, conservation, causes, order ------------------------------------------
 
 type EventStats struct {
-	Atomic      int
-	Deletions   int
-	ByCause     [5]int
-	Certain     int
-	Maybe       int
-	ChainPairs  int
-	Racing      int // replacement and automatic removal of the same key within one trial
+	Atomic     int
+	Deletions  int
+	ByCause    [5]int
+	Certain    int
+	Maybe      int
+	ChainPairs int
+	Racing     int // replacement and automatic removal of the same key within one trial
 }
 
 func (t *Trial) CheckEvents(f *Final) (violation string, st EventStats) {
